@@ -71,7 +71,39 @@ EXPLANATION = (
     "(preprocess, directors/, errors/, blocks/, pyc/, vm, io) a "
     "split('\\n') list indexed by position must be cut from text whose "
     "\\r\\n / \\r were rewritten to \\n first (or by a re.split on all three "
-    "line ends), since CPython numbers lines at \\r\\n and lone \\r too.  Not "
+    "line ends), since CPython numbers lines at \\r\\n and lone \\r too.  "
+    "R15.20/R15.21 (rules/c15_folding.py): hashing a folded constant's value "
+    "is covered by a TypeError handler; `.__name__` of a type component only "
+    "under tag 'prim'.  R15.22 (same file): constant_folding's value-or-type "
+    "router (found by its dataflow role: returns constant_to_var(<p>.value) on "
+    "one exit, passes <p> on to build_folded_type on another; today "
+    "build_pyval) is *evaluated* with rules/_peval.py for falsy and truthy, "
+    "flat and nested tuple constants under both tags such a constant can "
+    "carry ('tuple' from LOAD_CONST, 'prim' after LIST_EXTEND re-tags the "
+    "elements of a constant tuple): every constant that carries a value must "
+    "leave through the value route, because the `typ`/`elements` of raw code "
+    "constants are not canonical (the producers are located each run; if none "
+    "is left the premise is gone -> analysis error).  Truthiness instead of "
+    "`is not None`, or dropping 'tuple' from the routed tags, is a violation "
+    "(`[(), (1,), (1, 2)]` -> KeyError).  R15.23 "
+    "(rules/c15_directive_order.py): _LineSet.start_range raises an uncaught "
+    "ValueError for a decreasing line; Director._parse_src_tree feeds it "
+    "comment.line in the iteration order of visitor.structured_comment_groups "
+    "and of each group; so the parser's ordered dict and every merged group "
+    "must stay ascending: the direction (ascending/descending relative to the "
+    "dict) of the key lists of _add_structured_comment_group is tracked "
+    "through reversed()/append/insert(0)/.reverse()/[::-1]/sorted(key=start "
+    "line) and both consuming loops (move_to_end, extend) must run ascending; "
+    "the seed must follow the raw comments' order.  Blind spots of R15.23: "
+    "*which* keys are collected (completeness of keys_to_move), that comments "
+    "inside one seeded group are ascending, and that tokenize delivers "
+    "comments by ascending line are not checked.  Blind spot of R15.22: scalar "
+    "constants sent down the type route only lose their literal value (no "
+    "crash), so they are not required; other consumers of non-canonical "
+    "constants than the router are not searched.  A further folding rule "
+    "(rules/pending_c15_elements_kind.py, not loaded) currently reports a "
+    "genuine pytype defect (`x = [*{1: 2}]` -> TypeError in the LIST_EXTEND "
+    "arm) and waits for the fix.  Not "
     "decided: exceptions raised inside handlers for reasons other "
     "than these (the abstract interpreter is not bounded by a static "
     "argument).")
@@ -96,6 +128,13 @@ ASSUMPTIONS = [
     "line lists passed on through a call or an alias are not followed; "
     "errors.Error locates lines by scanning for '\\n' itself (no list) and is "
     "not covered",
+    "R15.22: rules/_peval.py evaluates the router's tests on host sample "
+    "values; _Constant.tag is the property `typ[0]`; state the test does not "
+    "read (ctx, state) is unknown and must not decide the route",
+    "R15.23: OrderedDict/dict iterate in insertion order, move_to_end(k) "
+    "re-appends k; groups of base LineRanges do not overlap, so ascending "
+    "start lines imply ascending comment lines across groups; a ValueError "
+    "raised under Director.__init__ is not caught before io's generic handler",
 ]
 
 VM = O.VM
